@@ -781,7 +781,10 @@ class SymInt:
 
     def __truediv__(self, o):
         from .symfloat import SymFloat
-        return SymFloat.from_int(self) / o
+        f = SymFloat.from_int(self) / o
+        if isinstance(o, int) and not isinstance(o, bool) and o > 0 and isinstance(f, SymFloat):
+            f.ratio = (self, o)     # lets floor() use the integer quotient under lemma L1 (see shims.floor_shim)
+        return f
 
     def __rtruediv__(self, o):
         from .symfloat import SymFloat
